@@ -174,7 +174,7 @@ pub fn gen(seed: u64) -> Replay {
             }
         }
     }
-    Replay { property: "C15".into(), simulator: "cpusim".into(), seed, config: json!({}), steps, violation: None, minimised_from_steps: None }
+    Replay { property: "C15".into(), simulator: "cpusim".into(), seed, config: json!({"shift8": (seed >> 7) & 1 == 1}), steps, violation: None, minimised_from_steps: None }
 }
 
 fn step_tss_desc(s: &Value, i: usize, st: &mut Stats) -> Option<Violation> {
@@ -554,6 +554,7 @@ fn step_dtp(s: &Value, i: usize, st: &mut Stats) -> Option<Violation> {
 pub fn run(rp: &Replay, st: &mut Stats) -> Option<Violation> {
     quiet_panics();
     world().mon_budget = 5_000;
+    crate::c14::SHIFT8.store(rp.config["shift8"].as_bool().unwrap_or(false), core::sync::atomic::Ordering::Relaxed);
     for (i, s) in rp.steps.iter().enumerate() {
         st.steps += 1;
         world().cpu = Cpu::default();
